@@ -64,3 +64,14 @@ Example C08_indexes_witness :
   (1 <=? zlen (c_settledix (run c01w_init c01w_ops))) = true /\
   existsb (fun e => negb (match ms_pending (snd e) with [] => true | _ => false end)) (c_ms (run c01w_init c01w_ops)) = true.
 Proof. repeat split; vm_compute; reflexivity. Qed.
+
+From Sge Require Import Gen.kernels Proofs.GenMarket Proofs.GenBet.
+(* the market tests of a wager's admission ARE x/bet/keeper getMarket (the market exists, is active, is not past its end time at the block
+   time; equality at the end time is still accepted) and Market.HasOdds (the selected outcome is one of the market's), generated from the
+   source on every run *)
+Theorem C08_market_tests_generated : forall found mk now o,
+  K_betmkt_getMarket (betmkt_state found mk now) =
+    (if negb found then None else if negb (k_status mk =? MK_ACTIVE) then None else if k_end mk <? now then None else Some (gm_of mk)) /\
+  K_Market_HasOdds (gm_of mk) o = zmem o (k_odds mk).
+Proof. intros. split; [apply gen_getMarket|apply gen_HasOdds]. Qed.
+Print Assumptions C08_market_tests_generated.
